@@ -15,7 +15,7 @@ class R:
     fails = []
     def fail(self, kind, case, what, **kw): self.fails.append((kind, what))
     def count(self, *a, **k): pass
-for prop in ('C11', 'C16', 'C18', 'C15', 'C07', 'C06'):
+for prop in ('C11', 'C16', 'C18', 'C15', 'C07', 'C06', 'C09'):
     r = R(); r.extra = {}; r.fails = []
     bridge.check(r, prop)
     b = r.extra['translator_bridge']
